@@ -35,7 +35,13 @@ def main():
     wt = tempfile.mkdtemp(prefix="seed-wt-")
     os.rmdir(wt)
     out = {"patch": os.path.relpath(patch, HERE), "demo_place": place}
+    rules_only = "--rules-only" in sys.argv and os.path.exists(os.path.join(d, "evaluation.json"))
+    if rules_only:
+        # the demonstration was confirmed before (recorded in evaluation.json); only re-run the rules
+        out = json.load(open(os.path.join(d, "evaluation.json")))
     try:
+        if rules_only:
+            raise StopIteration
         subprocess.check_call(["git", "-C", "/repo", "worktree", "add", "-q", "--detach", wt, "HEAD"])
         tgt = os.path.join(wt, "target")
         env = {"CARGO_TARGET_DIR": tgt}
@@ -66,8 +72,11 @@ def main():
         rc2, o2 = sh("cargo test --workspace --no-fail-fast --offline 2>&1 | grep -E '^test result|FAILED' ", wt, env)
         out["suite_passes_with_patch"] = "FAILED" not in o2 and "test result: ok" in o2
         out["suite_tail"] = o2[-400:]
+    except StopIteration:
+        pass
     finally:
-        subprocess.call(["git", "-C", "/repo", "worktree", "remove", "--force", wt])
+        if not rules_only:
+            subprocess.call(["git", "-C", "/repo", "worktree", "remove", "--force", wt])
         shutil.rmtree(wt, ignore_errors=True)
         subprocess.call(["git", "-C", "/repo", "worktree", "prune"])
     # rules on a scratch copy
